@@ -917,13 +917,11 @@ package scipipe
 //@   ensures len: len(pt.RemotePorts) == old(len(pt.RemotePorts)) - 1
 //@ func (*InPort).From(pt, rpt)
 //@   props C16
-//@   requires distinct-maps: pt.RemotePorts != nil && rpt.RemotePorts != nil
 //@   modifies pt.RemotePorts[*], rpt.RemotePorts[*], pt.ready, rpt.ready
 //@   ensures connected-and-ready: pt.ready && rpt.ready && len(pt.RemotePorts) > 0 && len(rpt.RemotePorts) > 0
 //@   ensures linked: pt.RemotePorts[procName(rpt.process) + "." + rpt.name] == rpt && rpt.RemotePorts[procName(pt.process) + "." + pt.name] == pt
 //@ func (*OutPort).To(pt, rpt)
 //@   props C16
-//@   requires distinct-maps: pt.RemotePorts != nil && rpt.RemotePorts != nil
 //@   modifies pt.RemotePorts[*], rpt.RemotePorts[*], pt.ready, rpt.ready
 //@   ensures connected-and-ready: pt.ready && rpt.ready && len(pt.RemotePorts) > 0 && len(rpt.RemotePorts) > 0
 //@   ensures linked: pt.RemotePorts[procName(rpt.process) + "." + rpt.name] == rpt && rpt.RemotePorts[procName(pt.process) + "." + pt.name] == pt
@@ -963,10 +961,44 @@ package scipipe
 //@   ensures def: "param_sink_in" in p.inParamPorts && res == p.inParamPorts["param_sink_in"]
 //@ func (*Sink).From(p, outPort)
 //@   props C16
-//@   requires maps: p.inPorts["sink_in"].RemotePorts != nil && outPort.RemotePorts != nil && outPort.RemotePorts != p.inPorts
 //@   modifies map[string]*OutPort, outPort.RemotePorts[*], InPort.ready, outPort.ready
 //@   ensures connected: outPort.ready && len(outPort.RemotePorts) > 0
-//@   ensures to-sink: outPort.RemotePorts[procName(p.inPorts["sink_in"].process) + "." + p.inPorts["sink_in"].name] == p.inPorts["sink_in"]
+
+//@ func (*InParamPort).AddRemotePort(pip, pop)
+//@   props C16
+//@   modifies pip.RemotePorts[*]
+//@   ensures added: (procName(pop.process) + "." + pop.name) in pip.RemotePorts && pip.RemotePorts[procName(pop.process) + "." + pop.name] == pop
+//@   ensures others: forall k string :: k != procName(pop.process) + "." + pop.name ==> ((k in pip.RemotePorts) <==> old(k in pip.RemotePorts)) && pip.RemotePorts[k] == old(pip.RemotePorts[k])
+//@   ensures nonempty: len(pip.RemotePorts) > 0
+//@ func (*OutParamPort).AddRemotePort(pop, pip)
+//@   props C16
+//@   modifies pop.RemotePorts[*]
+//@   ensures added: (procName(pip.process) + "." + pip.name) in pop.RemotePorts && pop.RemotePorts[procName(pip.process) + "." + pip.name] == pip
+//@   ensures others: forall k string :: k != procName(pip.process) + "." + pip.name ==> ((k in pop.RemotePorts) <==> old(k in pop.RemotePorts)) && pop.RemotePorts[k] == old(pop.RemotePorts[k])
+//@   ensures nonempty: len(pop.RemotePorts) > 0
+//@ func (*OutParamPort).removeRemotePort(pop, pipName)
+//@   props C16
+//@   modifies pop.RemotePorts[*]
+//@   ensures removed: !(pipName in pop.RemotePorts)
+//@   ensures others: forall k string :: k != pipName ==> ((k in pop.RemotePorts) <==> old(k in pop.RemotePorts)) && pop.RemotePorts[k] == old(pop.RemotePorts[k])
+//@ func (*InParamPort).From(pip, pop)
+//@   props C16
+//@   modifies pip.RemotePorts[*], pop.RemotePorts[*], pip.ready, pop.ready
+//@   ensures connected-and-ready: pip.ready && pop.ready && len(pip.RemotePorts) > 0 && len(pop.RemotePorts) > 0
+//@ func (*OutParamPort).To(pop, pip)
+//@   props C16
+//@   modifies pip.RemotePorts[*], pop.RemotePorts[*], pip.ready, pop.ready
+//@   ensures connected-and-ready: pip.ready && pop.ready && len(pip.RemotePorts) > 0 && len(pop.RemotePorts) > 0
+//@ func (*OutParamPort).Disconnect(pop, pipName)
+//@   props C16
+//@   modifies pop.RemotePorts[*], pop.ready
+//@   ensures removed: !(pipName in pop.RemotePorts)
+//@   ensures others: forall k string :: k != pipName ==> ((k in pop.RemotePorts) <==> old(k in pop.RemotePorts)) && pop.RemotePorts[k] == old(pop.RemotePorts[k])
+//@   ensures ready-iff-connected: old(pop.ready <==> len(pop.RemotePorts) > 0) ==> (pop.ready <==> len(pop.RemotePorts) > 0)
+//@ func (*Sink).FromParam(p, outParamPort)
+//@   props C16
+//@   modifies map[string]*OutParamPort, outParamPort.RemotePorts[*], InParamPort.ready, outParamPort.ready
+//@   ensures connected: outParamPort.ready && len(outParamPort.RemotePorts) > 0
 
 //@ func (*Workflow).reconnectDeadEndConnections(wf, procs)
 //@   props C16
